@@ -223,6 +223,8 @@ def impl_conv(op, o):
         except Exception as e:
             if o["kind"] == "other":
                 return ("err", 2)          # not a map: any refusal counts
+            if op == "istp":
+                return ("err", 1)          # the model only says "raises"
             return ("err", err_name(e))
     raise AssertionError(op)
 
@@ -277,9 +279,9 @@ def impl_pauli(nq):
 
 def impl_svdk(c):
     from qutip.core import superop_reps as sr
-    U = from_gz(c["U"], (c["d"] * c["d"], c["dK"]))
+    U = from_gz(c["U"], (c["dO"] * c["dI"], c["dK"]))
     S = from_gz(c["S"], (c["dK"],))
-    ks = sr._svd_u_to_kraus(U, S, c["d"], c["dK"], c["indims"], c["outdims"])
+    ks = sr._svd_u_to_kraus(U, S, c["dO"], c["dI"], c["dK"], c["indims"], c["outdims"])
     return [[gz_list(k.full()), k.dims[0], k.dims[1], list(k.shape)] for k in ks]
 
 
@@ -889,6 +891,11 @@ def run(ctx):
             continue
         o["rep"] = "chi"
         i_, o_ = o["dims"][0], o["dims"][1]
+        if k % 3 == 0 and o["dims"][0] == o["dims"][1] == o["dims"][2] == o["dims"][3]:
+            # chi matrix of a Pauli-string conjugation (a TP map): N at one diagonal slot
+            N = prod(i_) * prod(o_)
+            slot = rng.randrange(N)
+            o["data"] = [[N if (t == slot * N + slot) else 0, 0] for t in range(N * N)]
         for op in ("chi_to_choi", "istp"):
             iv = impl_conv(op, o)
             if isinstance(iv, tuple) and iv and iv[0] == "ctor":
@@ -920,22 +927,25 @@ def run(ctx):
             impl_pauli(nq), lambda v: [list(x) for x in v], nq > 0)
     # Stinespring assembly with exact stand-ins for the SVD factors
     for k in range(12 if ctx.quick else 80):
-        d = rng.choice([2, 2, 3, 4])
+        outd = list(rng.choice([s_ for s_ in SUBSYS if 1 < prod(s_) <= 4]))
+        ind = list(outd) if rng.random() < 0.4 else list(
+            rng.choice([s_ for s_ in SUBSYS if 1 < prod(s_) <= 4]))
+        dO, dI = prod(outd), prod(ind)
         dK = rng.randint(1, 3)
-        sub = [s for s in SUBSYS if prod(s) == d]
-        c = {"d": d, "dK": dK, "U": rgz(rng, d * d * dK), "S": rgz(rng, dK, 1, 3, 0.0, real=True),
-             "indims": list(rng.choice(sub)), "outdims": list(rng.choice(sub))}
+        c = {"dO": dO, "dI": dI, "dK": dK, "U": rgz(rng, dO * dI * dK),
+             "S": rgz(rng, dK, 1, 3, 0.0, real=True), "indims": ind, "outdims": outd}
         iv = impl_svdk(c)
         expr = ("map (fun K => (o_data K, o_dl K, o_dr K, [o_m K; o_n K]%%nat)) "
-                "(svd_u_to_kraus %s %s %s %s %s %s)" % (
-                    c_gz(c["U"]), c_gz(c["S"]), cnat(d), cnat(dK), c_nl(c["indims"]), c_nl(c["outdims"])))
+                "(svd_u_to_kraus %s %s %s %s %s %s %s)" % (
+                    c_gz(c["U"]), c_gz(c["S"]), cnat(dO), cnat(dI), cnat(dK),
+                    c_nl(c["indims"]), c_nl(c["outdims"])))
         add("svd_u_to_kraus", {"family": "svdk", "c": c}, expr, iv,
-            lambda v: [[[list(x) for x in t[0]], list(t[1]), list(t[2]), list(t[3])] for t in v], d > 1)
+            lambda v: [[[list(x) for x in t[0]], list(t[1]), list(t[2]), list(t[3])] for t in v],
+            True)
         # block assembly
-        outd = ind = c["indims"]     # the assembly only type-checks for equal labels (see known finding)
-        kU = [{"kind": "oper", "m": d, "n": d, "dl": outd, "dr": ind, "data": rgz(rng, d * d)}
+        kU = [{"kind": "oper", "m": dO, "n": dI, "dl": outd, "dr": ind, "data": rgz(rng, dO * dI)}
               for _ in range(dK)]
-        kV = [{"kind": "oper", "m": d, "n": d, "dl": outd, "dr": ind, "data": rgz(rng, d * d)}
+        kV = [{"kind": "oper", "m": dO, "n": dI, "dl": outd, "dr": ind, "data": rgz(rng, dO * dI)}
               for _ in range(dK)]
         c2 = {"kU": kU, "kV": kV, "jdims": [[ind, outd], [ind, outd]]}
         try:
@@ -944,10 +954,10 @@ def run(ctx):
         except Exception as e:
             iv2 = ("err", type(e).__name__, str(e)[:100])
         expr2 = "(stinespring_block %s %s %s, stinespring_block %s %s %s)" % (
-            clist(kU, c_oper), cnat(d), cnat(d), clist(kV, c_oper), cnat(d), cnat(d))
+            clist(kU, c_oper), cnat(dO), cnat(dI), clist(kV, c_oper), cnat(dO), cnat(dI))
         want_dims = [outd + [dK], ind]
         add("stinespring_block", {"family": "stine", "c": c2}, expr2, iv2,
-            lambda v, wd=want_dims: [[list(x) for x in v[0]], [list(x) for x in v[1]], wd, wd], d > 1)
+            lambda v, wd=want_dims: [[list(x) for x in v[0]], [list(x) for x in v[1]], wd, wd], True)
 
     try:
         vals = vlib.coq_eval_values("cases_C08", HEADER, [c[2] for c in cases], chunk=60)
